@@ -1,3 +1,34 @@
-import Orda.Model.Api
+/-
+C01 — Replicas of a datatype converge once they have the same operations.
+-/
+import Orda.Proofs.MapCounter
 namespace Orda.Props.C01
+open Orda
+
+/-- map: two replicas that applied the same operations, each in a causal order, agree on every key
+    and on Size — for every history and every pair of delivery schedules -/
+theorem map_converges (ops ops' : List Op) (hp : ops.Perm ops') (hc : MapCausal ops) (hc' : MapCausal ops')
+    (hd : DistinctTs ops) :
+    (∀ k, (mapApplyAll LwwMap.empty ops).get k = (mapApplyAll LwwMap.empty ops').get k) ∧
+    (mapApplyAll LwwMap.empty ops).size = (mapApplyAll LwwMap.empty ops').size :=
+  map_converge ops ops' hp hc hc' hd
+
+/-- the JSON view of a well-formed map is determined by `get` (so equal reads give equal views) -/
+theorem map_view_from_reads (m : LwwMap) (h : m.WF) (k : String) : alFind k m.live = m.get k :=
+  live_lookup m h k
+
+theorem map_wf_reachable (ops : List Op) : (mapApplyAll LwwMap.empty ops).WF := by
+  unfold mapApplyAll
+  have : ∀ (l : List Op) (m : LwwMap), m.WF → (l.foldl mapApply m).WF := by
+    intro l
+    induction l with
+    | nil => intro m h; exact h
+    | cons o l ih => intro m h; exact ih _ (wf_mapApply m o h)
+  exact this ops _ wf_empty
+
+/-- counter: any two orders of the same increments give the same value -/
+theorem counter_converges (ops ops' : List Op) (hp : ops.Perm ops') :
+    ops.foldl counterApply 0 = ops'.foldl counterApply 0 :=
+  counter_converge ops ops' hp
+
 end Orda.Props.C01
